@@ -30,13 +30,16 @@ def gen_world(rng):
     A = {"k": "array", "item": {"k": "scalar", "name": "Float64"}, "shape": [None], "order": [0]}
     members = [L0, L1] + ([A] if rng.random() < 0.4 else [])
     Un = {"k": "union", "name": "U" + hashlib.sha1(json.dumps(members, sort_keys=True).encode()).hexdigest()[:8], "members": members}
+    # a second union listing the same member types at OTHER positions
+    Un2 = {"k": "union", "name": "V" + Un["name"][1:], "members": list(reversed(members))}
     inner = {"k": "struct", "name": "I" + hashlib.sha1(json.dumps(L0, sort_keys=True).encode()).hexdigest()[:8],
              "fields": [["x", {"k": "scalar", "name": "Int32"}], ["r2", {"k": "ref", "target": L0}]]}
     pool = [["a", {"k": "scalar", "name": rng.choice(G.SC)}], ["r", {"k": "ref", "target": L0}], ["u", Un],
             ["rs", {"k": "array", "item": {"k": "ref", "target": L1}, "shape": [rng.choice([2, None])], "order": [0]}],
             ["us", {"k": "array", "item": Un, "shape": [rng.choice([2, None])], "order": [0]}],
             ["inner", inner], ["ra", {"k": "ref", "target": A}], ["s", {"k": "string"}],
-            ["rm", {"k": "array", "item": {"k": "ref", "target": L1}, "shape": [2, rng.choice([2, 3, None])], "order": [1, 0]}]]
+            ["rm", {"k": "array", "item": {"k": "ref", "target": L1}, "shape": [2, rng.choice([2, 3, None])], "order": [1, 0]}],
+            ["u2", Un2]]
     while True:
         fields = [f for f in pool if rng.random() < 0.5]
         if any(G.has_kind(ft, "ref") or G.has_kind(ft, "union") for _, ft in fields) and 1 <= len(fields):
@@ -125,6 +128,51 @@ class Store:
         return j
 
 
+def assign_tree(store, t, dst, src, same_buffer, buf):
+    """element of type t holding dst := object-valued src (field-wise, as the library does for compounds with
+    references): scalars and texts are taken over, string capacities and array shapes of the destination
+    stay (None if they do not match / fit), references share their referent inside one buffer and get a
+    fresh duplicate otherwise"""
+    k = t["k"]
+    if k == "scalar": return copy.deepcopy(src)
+    if k == "string":
+        if 8 + len(src["s"]) + 1 > dst["size"]: return None
+        return {"s": list(src["s"]), "size": dst["size"]}
+    if k == "struct":
+        out = []
+        for (_, ft), d, x in zip(t["fields"], dst["f"], src["f"]):
+            r = assign_tree(store, ft, d, x, same_buffer, buf)
+            if r is None: return None
+            out.append(r)
+        return {"f": out}
+    if k == "array":
+        if dst["shape"] != src["shape"]: return None
+        out = []
+        for d, x in zip(dst["items"], src["items"]):
+            r = assign_tree(store, t["item"], d, x, same_buffer, buf)
+            if r is None: return None
+            out.append(r)
+        return {"shape": list(dst["shape"]), "items": out}
+    if k in ("ref", "union"):
+        if src["ref"] is None or same_buffer: return copy.deepcopy(src)
+        r = dict(src); r["ref"] = store.deep_copy(src["ref"], buf, False); return r
+
+
+def struct_paths(store, i):
+    """non-crossing paths inside object i to nested structs that hold references"""
+    out = []
+    def rec(t, tr, p):
+        k = t["k"]
+        if k == "struct":
+            if p and (G.has_kind(t, "ref") or G.has_kind(t, "union")): out.append((p, t, tr))
+            for j, ((_, ft), x) in enumerate(zip(t["fields"], tr["f"])): rec(ft, x, p + (("f", j),))
+        elif k == "array":
+            for j, x in enumerate(tr["items"]): rec(t["item"], x, p + (("i", j),))
+    o = store.objs[i]
+    rec(o["type"], o["tree"], ())
+    return out
+
+
 def slot_paths(store, i, prefix=(), cross=True, seen=None):
     """paths (from object i) to every reference slot; crossing non-null references if cross"""
     out = []
@@ -190,6 +238,8 @@ def gen_case(rng, nops, pid):
     if rng.random() < 0.7: new("y0", W["L0"], rng.choice(["B1", "B2"]))
     if rng.random() < 0.5: new("y1", W["L1"], rng.choice(["B1", "B2"]))
     if rng.random() < 0.3: new("xa", W["A"], "B0")
+    if holder_t is W["NA"] and rng.random() < 0.8:      # another object of the item type, to be assigned as a whole
+        new("n1", W["N"], rng.choice(["B0", "B0", "B1"]))
     for k in range(nops):
         r = rng.random()
         if r < (0.35 if pid == "C09" else 0.10):
@@ -225,6 +275,19 @@ def gen_case(rng, nops, pid):
             cont[key] = {"ref": rid} if t["k"] == "ref" else {"ref": rid, "m": mi}
             bop["src"] = {"kind": "value", "type": mt, "value": v, "member_name": t["k"] == "union"}; bop["fresh"] = True
             push(bop)
+        elif r < 0.55 and "n1" in names:
+            # a whole struct that holds references is assigned from another object of its class
+            tgt = rng.choice([n for n in names if n == "h" or (n.startswith("c") and st.objs[names[n]]["type"] == st.objs[names["h"]]["type"])])
+            sp = [x for x in struct_paths(st, names[tgt]) if x[1] == W["N"]]
+            if not sp: continue
+            p, t, tr = rng.choice(sp)
+            oid, _, cont, key = st.walk(names[tgt], p)
+            hb = st.objs[oid]["buf"]
+            src_tr = st.objs[names["n1"]]["tree"]
+            new_tr = assign_tree(st, t, tr, src_tr, st.objs[names["n1"]]["buf"] == hb, hb)
+            if new_tr is None: continue
+            cont[key] = new_tr
+            push({"op": "assign", "obj": tgt, "path": [list(s) for s in p], "src": "n1", "via": rng.choice(["handle", "view"]), "owner_rid": oid})
         elif r < 0.88:
             n = rng.choice(list(names))
             lp = leaf_paths(st, names[n])
@@ -258,7 +321,7 @@ def judge_case(pid, c, r):
     allocs_so_far = {"B0": [], "B1": [], "B2": []}
     for k, (op, st) in enumerate(zip(c["ops"], r["steps"])):
         kind = op["op"] + ("-" + op["src"]["kind"] if op["op"] == "bind" else "")
-        mine = (op["op"] == "copy") == (pid == "C09") or op["op"] in ("write", "grow", "new")
+        mine = (op["op"] == "copy") == (pid == "C09") or op["op"] in ("write", "grow", "new", "assign")
         # C08 on a copy step: what the copy *holds* is C09's business; that each of its references
         # denotes a live object of the recorded type in its own buffer is C08's
         slots_only = pid == "C08" and op["op"] == "copy"
@@ -390,6 +453,13 @@ def run(ctx):
             if sig not in bysig:
                 bysig[sig] = (i, "the strict decoder (references followed) does not recover the expected value from the final buffer", len(cases[i]["ops"]) - 1)
     found = False
+    partcov = {}
+    if pid == "C09":
+        # copies of NESTED parts (reference-free types of any shape), the original re-laid-out afterwards
+        extra, partcov = U.c09_part_copies(ctx, bud["n"] * 2, 3, bud["shards"])
+        for sig, what, rep in extra:
+            found = True
+            report(ctx, sig, what, rep)
     for sig, (i, what, k) in sorted(bysig.items()):
         found = True
         c = dict(cases[i]); c["ops"] = [dict(o) for o in c["ops"][:k + 1]] if k >= 0 else c["ops"]
@@ -411,6 +481,9 @@ def run(ctx):
                rule="generated worlds of types (leaf structs, arrays, UnionRef over them, holder structs with Ref / UnionRef fields, arrays of them, nested structs holding references, references to structs that hold references, arrays of reference-bearing structs) and histories over three buffers (two sharing a context): construct, bind-to-existing / -value / -foreign-object / -null through handle or view, write through reference or original, buffer growth%s. After every step every object is read deeply through handle and fresh view and every reference slot is read raw (target address, member index) and compared with an abstract store with object identity; the final buffers are decoded by the strict decoder in Coq." % ("; copy construction into the same buffer / another buffer / another context followed by writes on either side" if pid == "C09" else ""),
                samples=[{"ops": [{k: v for k, v in o.items() if k not in ("expect", "alias", "type", "value")} for o in cases[-1]["ops"][:8]]}],
                distribution=dict(sorted(hist.items())), corpus_cases=len(corpus))
+    if partcov:
+        cov.update(partcov)
+        cov["rule"] += " Second pass (part copies): a holder of a generated reference-free type, one of its nested compound parts copy-constructed (same buffer / other buffer / other context), then an ancestor of that part assigned another object of its class with the same total size and another distribution of its variable-size items, then a leaf of the copy and a leaf of the original written; after each step original, copy through the kept handle and copy through a fresh view are read back and compared with the value model."
     return finish(ctx, "proof", obl, cov, ["objects bound into a reference have the reference's target type (or a member type of the union)",
                                            "nothing is freed during a history, so every allocation logged for a buffer is live"])
 
@@ -483,7 +556,7 @@ def c03_histories(ctx, n, nops, shards):
                 kind = op["op"] + ("-" + op["src"]["kind"] if op["op"] == "bind" else "")
                 allowed = {b: [tuple(a) for a in new_allocs.get(b, [])] for b in ("B0", "B1", "B2")}
                 known = True
-                if op["op"] in ("bind", "write"):
+                if op["op"] in ("bind", "write", "assign"):
                     nm = op["alias"]["_named"].get(str(op["owner_rid"]))
                     o = st["objs"].get(nm) if nm else None
                     if o is None:
@@ -528,6 +601,36 @@ def c03_replay(ctx, r):
     return 1
 
 
+# ------------------------------------------------------------------ C10 over reference histories
+def c10_histories(ctx, n, nops, shards):
+    """C10 on objects holding references: an assignment (plain data bound into a reference, a leaf written through a
+    reference or directly, a whole reference-bearing struct assigned) changes that element and leaves every other
+    element and every other REFERENCE of every object unchanged.  Same histories and the same abstract store with
+    identity as C08; only assignment steps are judged here.  Returns ([(sig, what, replay)], coverage)."""
+    rng = random.Random(ctx.seed + 1010)
+    cases = [gen_case(rng, nops, "C08") for _ in range(n)]
+    sh = (len(cases) + shards - 1) // shards
+    results = []
+    for r in run_impl_parallel(ctx, "refs", [{"cases": cases[i:i + sh]} for i in range(0, len(cases), sh)]):
+        results += r["results"]
+    bysig = {}; nst = 0
+    for i, (c, r) in enumerate(zip(cases, results)):
+        for sig, what, k in judge_case("C08", c, r):
+            if k < 0: continue
+            op = c["ops"][k]
+            nst += 1
+            if op["op"] in ("write", "assign") or (op["op"] == "bind" and op["src"]["kind"] in ("value", "null")):
+                sig10 = "C10/refs/" + sig.split("/", 1)[1]
+                if sig10 not in bysig or k < bysig[sig10][2]:
+                    bysig[sig10] = (i, what, k)
+    out = []
+    for sig, (i, what, k) in sorted(bysig.items()):
+        c = dict(cases[i]); c["ops"] = [dict(o) for o in c["ops"][:k + 1]]
+        if c["ops"]: c["ops"][-1]["dump"] = True
+        out.append((sig, what, dict(kind="concrete", tie="K-REF", mode="c10", case=c, failing_step=k, how_to_replay="./check C08 --replay <this file> (same history runner and judgement)")))
+    return out, dict(reference_histories=len(cases), steps_in_them=sum(len(c["ops"]) for c in cases))
+
+
 def c06_replay(ctx, r):
     c = r["case"]
     res = run_impl(ctx, "refs", {"cases": [c]})["results"][0]
@@ -546,6 +649,8 @@ def replay(ctx, path):
     r = json.load(open(path))
     if r.get("kind") != "concrete":
         print("nothing to execute:", r.get("what")); return 1
+    if r.get("tie") == "K-PARTCOPY":
+        return U.part_copy_replay(ctx, r)
     c = r["case"]
     res = run_impl(ctx, "refs", {"cases": [c]})["results"][0]
     j = judge_case(ctx.pid, c, res)
